@@ -99,7 +99,9 @@ func (x *Exec) call(st *State, fr *Frame, c *ssa.CallCommon, args []*Value, fnv 
 	return false
 }
 
-func (x *Exec) forceInline(fc *FuncContract, callee *ssa.Function) bool { return false }
+func (x *Exec) forceInline(fc *FuncContract, callee *ssa.Function) bool {
+	return fc.Inline && callee.Blocks != nil
+}
 
 func (x *Exec) boundTarget(f *ssa.Function) *ssa.Function {
 	// synthetic bound-method wrapper `T.m$bound`: find the call inside
@@ -161,6 +163,9 @@ func (x *Exec) inline(st *State, fr *Frame, callee *ssa.Function, args []*Value,
 				}
 				for k, v := range nf.Params {
 					cenv.vars["$"+k] = v
+				}
+				if !x.snapsReady(st, a) {
+					continue
 				}
 				x.fired[a] = true
 				x.oblige(st, "assert@"+short+fmt.Sprintf("#%d", ord), a.Label, a.Props, x.evalBool(cenv, a.Expr), x.P.Pos(instrPos(pos)), a.Src)
@@ -318,6 +323,9 @@ func (x *Exec) callByContract(st *State, fr *Frame, callee *ssa.Function, fc *Fu
 				for k, v := range env.vars {
 					cenv.vars["$"+k] = v
 				}
+				if !x.snapsReady(st, a) {
+					continue
+				}
 				x.fired[a] = true
 				x.oblige(st, "assert@"+short+fmt.Sprintf("#%d", ord), a.Label, a.Props, x.evalBool(cenv, a.Expr), where, a.Src)
 			}
@@ -337,6 +345,9 @@ func (x *Exec) callByContract(st *State, fr *Frame, callee *ssa.Function, fc *Fu
 					}
 					for k, v := range env.vars {
 						cenv.vars["$"+k] = v
+					}
+					if !x.snapsReady(st, a) {
+						continue
 					}
 					x.fired[a] = true
 					x.oblige(st, "assert@"+short+fmt.Sprintf("#%d", dyn), a.Label, a.Props, x.evalBool(cenv, a.Expr), where, a.Src)
@@ -360,6 +371,9 @@ func (x *Exec) callByContract(st *State, fr *Frame, callee *ssa.Function, fc *Fu
 				}
 				for k, v := range env.vars {
 					cenv.vars["$"+k] = v
+				}
+				if !x.snapsReady(st, a) {
+					continue
 				}
 				x.fired[a] = true
 				x.oblige(st, "assert@"+via+"."+short+fmt.Sprintf("#%d", ord), a.Label, a.Props, x.evalBool(cenv, a.Expr), where, a.Src)
@@ -485,6 +499,19 @@ func (x *Exec) siteOrdinal(fn *ssa.Function, pos ssa.Instruction, short string) 
 		siteCache[fn] = m
 	}
 	return m[pos]
+}
+
+// snapsReady: an assertion that mentions a snapshot speaks about the paths on which it was taken.
+func (x *Exec) snapsReady(st *State, a *Clause) bool {
+	if x.fc == nil || len(x.fc.Snapshots) == 0 {
+		return true
+	}
+	for _, m := range snapRefRe.FindAllStringSubmatch(a.Src, -1) {
+		if _, ok := st.snaps[m[1]]; !ok && isSnapshotName(x.fc, m[1]) {
+			return false
+		}
+	}
+	return true
 }
 
 func hasStaticSite(fn *ssa.Function, short string) bool {
@@ -902,6 +929,9 @@ func (x *Exec) callBySlot(st *State, fr *Frame, sc *FuncContract, slot string, s
 				cenv := x.envFor(st, x.entry, fr)
 				for k, v := range env.vars {
 					cenv.vars["$"+k] = v
+				}
+				if !x.snapsReady(st, a) {
+					continue
 				}
 				x.fired[a] = true
 				x.oblige(st, "assert@slot:"+slot, a.Label, a.Props, x.evalBool(cenv, a.Expr), where, a.Src)
